@@ -454,6 +454,16 @@ theorem c07_x_append_retry_loop :
 `Sync()` (the `ok` of the model's `syncEnd`); nothing is carried over from one batch to the next -/
 theorem c07_x_fsync_error_per_batch : syncLoopErrScope = ["in-loop: err := fs.ws.Sync()", "sent: err"] := by decide
 
+/-- `List.FilterInRange` builds its result in a fresh slice: the fractions snapshot a fetch request takes once
+(`storeapi.docsStream`) and hands to every id batch is never written, so a fraction skipped for one batch is still
+there for the next (a reader's snapshot is immutable, as in the model, where `GetAllFracs` is a value) -/
+theorem c07_x_filter_in_range_pure : filterInRangeResult = ["res := make(List, 0)", "return res"] := by decide
+
+/-- sealing marks the minute bucket of EVERY id in the fraction's distribution; `IsIntersecting`/`Contains` of the sealed
+fraction (what search and fetch use to pick fractions) therefore cover every document the active fraction covered -/
+theorem c07_x_distribution_marks_every_id :
+    buildDistributionLoop = ["for _, id := range ids", "s.Distribution.Add(id.MID)"] := by decide
+
 /-- ownership at the enqueue boundary: `Active.Append` only QUEUES the metas for the index worker (`wNew` happens after
 `Bulk` returned), so the in-memory client, whose caller reuses its buffer, must hand over a private copy -/
 theorem c07_x_bulk_owns_metas : inMemoryBulkOrder = ["in.Metas=slices.Clone(in.Metas)", "store.Bulk"] := by decide
